@@ -124,6 +124,18 @@ macro_rules! define_compressor {
             }
         }
 
+        /// Verification hooks (only with `--cfg cryptocorrosion_verif`): access to the chaining value,
+        /// so that the public generic `put_block::<M>` can be observed per back end.
+        #[cfg(cryptocorrosion_verif)]
+        impl $compressor {
+            pub fn verif_from_h(h: [$storage; 2]) -> Self {
+                Self { h }
+            }
+            pub fn verif_h(&self) -> [$storage; 2] {
+                self.h
+            }
+        }
+
         impl $compressor {
             #[inline(always)]
             fn put_block(&mut self, block: &GenericArray<u8, $Bufsz>, t: ($word, $word)) {
